@@ -181,3 +181,33 @@ def rule_config_switch(ctx, r, key, consumer, via_namespace=None):
     r.check(not bad, f"{seti.module.relpath}::{seti.qual}::{key}", f"`gwf config set {key} <yes|no|true|false|1|0>` reads back with that truth value where {consumer}",
             f"after `gwf config set {key} WORD` the value read where {consumer} is {bad} (word -> value): the switch cannot be turned "
             f"{'off' if any(not words[w] for w in bad) else 'on'} from the command line", seti.where)
+
+
+def rule_flag_default(ctx, r, func_key, flag, why):
+    """A click on/off switch is a flag (no value) that is off unless given: is_flag=True and default absent or False."""
+    import ast
+    idx = ctx.index
+    fn = idx.func(func_key)
+    opt = None
+    for d in fn.node.decorator_list:
+        if isinstance(d, ast.Call) and idx.canon(d.func, fn.module) == "click.option":
+            names = [a.value for a in d.args if isinstance(a, ast.Constant) and isinstance(a.value, str)]
+            if flag in names:
+                opt = d
+    con = f"{fn.module.relpath}::{fn.qual}::{flag}"
+    if opt is None:
+        r.violation(con, f"option {flag} not found on `{fn.name}`", fn.where)
+        return
+    kw = {k.arg: k.value for k in opt.keywords}
+
+    def const(n, dflt):
+        if n is None:
+            return dflt
+        try:
+            return ctx.ev.eval(n, fn.module)
+        except Exception:
+            return "?"
+    is_flag = const(kw.get("is_flag"), False)
+    default = const(kw.get("default"), False)
+    r.check(is_flag is True and default in (False, None), con, f"{flag} is an on/off flag that is off unless given",
+            f"{flag} is declared with is_flag={is_flag}, default={default}: {why}", f"{fn.module.relpath}:{opt.lineno}")
